@@ -38,7 +38,9 @@ def parseExt (s : String) : Option Ext :=
   | ["loc"] => some .badLocation
   | ["meta"] => some .badMeta
   | ["fail"] => some .loadErr
-  | ["ref", l, o, b] => do some (.ref (← parseU l) (← parseU o) (← parseU b))
+  | ["mem", l, o, b] => do some (.ref .mem (← parseU l) (← parseU o) (← parseU b))
+  | ["mmap", l, o, b] => do some (.ref .mmap (← parseU l) (← parseU o) (← parseU b))
+  | ["file", l, o, b] => do some (.ref .file (← parseU l) (← parseU o) (← parseU b))
   | _ => none
 
 def parseRType : String → Option RType
@@ -112,7 +114,7 @@ def showAll : Except Outcome (List (List Nat × Nat)) → String
 def splitBar (line : String) : List (List String) := (line.splitOn " | ").map words
 
 /-- Requests (answers: `ok <dims|-> <len>` | `err:<class>` | `panic`):
-* `onnx <tensor>` with `<tensor>` = `<dtype> <dims|-> raw=<n|-> ext=<none|loc|meta|fail|ref:len:off:buflen> f=<n> i32=<n> i64=<n> f64=<n>`
+* `onnx <tensor>` with `<tensor>` = `<dtype> <dims|-> raw=<n|-> ext=<none|loc|meta|fail|<mem|mmap|file>:len:off:buflen> f=<n> i32=<n> i64=<n> f64=<n>`
 * `onnxall <tensor> | <tensor> | …` → `loadAll loadConstant`
 * `constop <outputs> <attr,…|-> | <tensor>` → `constOp`; `attrconst <-|n>` → `attrConstant`
 * `rten <rel|ovf> inline <ty> <dims|-> n=<n>`
